@@ -3,7 +3,7 @@
 (* code generator emits.  Part of the AS-BUILT model of C01/C02/C15.                    *)
 (*                                                                                    *)
 (* Expressions (field k): const(v) name(n) gname(n) prim(n) call(f,args) vec(xs)        *)
-(*                        varref(n) mkexc(c) tramp(args) callall(e)                     *)
+(*                        varref(n) mkexc(c) tramp(args) callall(e) attr(e,n) mcall(e,n,args) *)
 (* Statements  (field s): assign(n,e) massign(ns,es) gassign(n,e) expr(e) if(t,a,b)     *)
 (*                        while(body) break continue return(e) raise(e)                 *)
 (*                        def(n,ps,body) try(body,hs,fin)                               *)
@@ -102,6 +102,16 @@ EvalE(e, st, fid, D) ==
                          IF ~f.ok THEN f
                          ELSE LET a == EvalList(e.args, f.st, fid, D) IN
                                 IF ~a.ok THEN EErr(a.x, a.st) ELSE CallV(f.v, a.vs, a.st, D)
+    [] e.k = "attr" -> LET r == EvalE(e.e, st, fid, D) IN
+                         IF ~r.ok THEN r
+                         ELSE IF r.v.ty # "obj" THEN EErr(ExcV("AttributeError"), r.st)
+                         ELSE EOk(IF e.n = 0 THEN NilV ELSE IntV(e.n), [r.st EXCEPT !.log = Append(@, 100 + e.n)])
+    [] e.k = "mcall" -> LET t == EvalE(e.e, st, fid, D) IN
+                          IF ~t.ok THEN t
+                          ELSE LET a == EvalList(e.args, t.st, fid, D) IN
+                                 IF ~a.ok THEN EErr(a.x, a.st)
+                                 ELSE IF t.v.ty # "obj" THEN EErr(ExcV("AttributeError"), a.st)
+                                 ELSE EOk(VecV(a.vs), [a.st EXCEPT !.log = Append(@, 200 + e.n)])
     [] e.k = "callall" -> LET r == EvalE(e.e, st, fid, D) IN
                             IF ~r.ok THEN r
                             ELSE IF r.v.ty # "vec" THEN EErr(ExcV("TypeError"), r.st)
